@@ -55,7 +55,12 @@ pub fn scenario(r: &mut Report, p: &Params) {
     r.eval();
     let mut rng = Rng::new(p.seed);
     let w = World::with_cfg(p.seed, NetCfg::default(), TraceLevel::Off);
-    let plans = [IpPlan::Public, IpPlan::Private, IpPlan::Mixed, IpPlan::PublicSecure];
+    // plan 4: public addresses without hairpinning - a node's datagrams to its own address are lost, so no
+    // address is ever confirmed and every node keeps its random (not BEP42-valid) id
+    let plans = [IpPlan::Public, IpPlan::Private, IpPlan::Mixed, IpPlan::PublicSecure, IpPlan::Public];
+    if p.plan % 5 == 4 {
+        w.set_fault(Some(Box::new(|s: &SendInfo| if s.from == s.to { Some(vec![]) } else { None })));
+    }
     let case = case_json(p);
     let dead1 = SocketAddrV4::new(Ipv4Addr::new(203, 0, 113, 1), 6881);
     let dead2 = SocketAddrV4::new(Ipv4Addr::new(203, 0, 113, 2), 7000);
@@ -81,7 +86,7 @@ pub fn scenario(r: &mut Report, p: &Params) {
         }
     };
     for i in 0..total {
-        let (ip, public_ip) = plan_ip(plans[p.plan % 4], i, &mut rng);
+        let (ip, public_ip) = plan_ip(plans[p.plan % 5], i, &mut rng);
         let server = i < p.servers;
         let bs: Vec<SocketAddrV4> = if i == 0 {
             vec![]
@@ -315,16 +320,17 @@ pub fn run(a: &Args) -> Report {
             continue;
         }
         let servers = *rng.pick(&[1usize, 2, 3, 4, 5, 7, 10, 14, 19, 20, 20]);
-        let p = Params { seed: rng.u64(), servers, clients: *rng.pick(&[0usize, 0, 1, 3, 6]), plan: rng.usize(4), order: rng.usize(4), boots: rng.usize(3) };
+        let p = Params { seed: rng.u64(), servers, clients: *rng.pick(&[0usize, 0, 1, 3, 6]), plan: rng.usize(5), order: rng.usize(4), boots: rng.usize(3) };
         super::guarded(&mut r, case_json(&p), |r| scenario(r, &p));
         r.count("join_scenarios");
+        r.count(["join_plan/public-rekeying", "join_plan/private", "join_plan/mixed", "join_plan/public-secure-from-start", "join_plan/public-no-hairpin"][p.plan % 5]);
     }
     // larger networks: connectivity verdict only
     if !a.quick() || a.shard == 0 {
         let sizes: Vec<usize> = if a.quick() { vec![100] } else { vec![50, 100, 300] };
         for s in sizes {
             if a.quick() || (s as u64 / 50) % a.nshards.max(1) == a.shard % 4 || a.nshards == 1 {
-                scenario(&mut r, &Params { seed: rng.u64(), servers: s, clients: 0, plan: rng.usize(4), order: rng.usize(2), boots: 0 });
+                scenario(&mut r, &Params { seed: rng.u64(), servers: s, clients: 0, plan: rng.usize(5), order: rng.usize(2), boots: 0 });
                 r.count("large_networks");
             }
         }
